@@ -20,6 +20,7 @@ func init() {
 				continue
 			}
 			k := 0
+			defs := localDefs(info, fd.Body)
 			for _, call := range calls(fd.Body, false) {
 				o := callee(info, call)
 				if o == nil || len(call.Args) != 1 {
@@ -35,7 +36,7 @@ func init() {
 				}
 				n++
 				k++
-				arg := unparen(call.Args[0])
+				arg := defs.resolve1(info, call.Args[0]) // `root := split[0]; v.getValue(root)` is the same lookup
 				ok := false
 				if ix, isIx := arg.(*ast.IndexExpr); isIx {
 					if v, isC := constInt(info, ix.Index); isC && v == 0 {
